@@ -48,6 +48,14 @@ def cases(rng, tier):
             c["axis"] = rng.choice(["x", "y"])
             if rng.random() < 0.05:
                 c["y"] = [c["y"][0]] * n
+            r = rng.random()
+            if r < 0.2:
+                # small spread relative to the magnitude (epoch time stamps, a ripple on a large offset) or tiny values:
+                # still non-constant data, exactly representable
+                off = Fraction(rng.choice([2 ** 30, 2 ** 33, -2 ** 31]))
+                c[c["axis"]] = [str(off + Fraction(v)) for v in c[c["axis"]]]
+            elif r < 0.3:
+                c[c["axis"]] = [str(Fraction(v) / 2 ** 40) for v in c[c["axis"]]]
         yield c
 
 
